@@ -46,7 +46,8 @@ class C18(Prop):
                    92: 'soundness: the loop stopped in a state without a genuine deadlock',
                    93: 'completeness: the loop ran past a state with a genuine deadlock',
                    94: 'times_to_deadlock is not (deadlock time - first visit) >= 0 for every visited tracker state',
-                   95: 'deadlock time is not the time of the last executed event'}
+                   95: 'deadlock time is not the time of the last executed event',
+                   96: 'genuineness: a deadlock was reported, the run was continued, and a customer of the reported deadlock (blocked, on a server of a node of the knot) later moved'}
 
     def extra_corr(self, tr, drv):
         """the Coq definition Knot.deadlocked_b (a knot exists in the ENGINE MODEL's state; proved permanent: deadlock_is_permanent) evaluated
@@ -82,14 +83,143 @@ class C18(Prop):
                                                   'deadlocked_b': o[0], 'hypotheses': o[1], 'verdict_at_frame': dd}}
         return {'stats': st}
 
+    AFTER_REGIONS = [('deadlock', 120), ('deadlock_renege', 90), ('deadlock_sched', 90)]
+
     def jobs(self, tier, seed):
         js = super().jobs(tier, seed)
         for i in range(300 if tier == 'quick' else 20000):
             js.append({'custom': 'graph', 'dseed': seed * 7919 + i})
+        m = 1 if tier == 'quick' else 12
+        i = 0
+        for region, count in self.AFTER_REGIONS:
+            for c in range(count * m):
+                js.append({'custom': 'after', 'region': region, 'gseed': seed * 100003 + i})
+                i += 1
         return js
+
+    @staticmethod
+    def knot_of(s):
+        """the greatest set K of nodes with server objects all of which hold a customer blocked towards a node of K (the structural
+        definition of the property, on a snapshot of the real engine) -> (K, {customer: (node, server)})"""
+        holders = {}
+        for i, ind in s['inds'].items():
+            if ind['server'] is not None and ind['server'] >= 1:
+                holders[(ind['node'], ind['server'])] = (i, ind)
+        K = set(n['id'] for n in s['nodes'] if n['servers'])
+        while True:
+            drop = set()
+            for j in K:
+                for sv in s['nodes'][j - 1]['servers']:
+                    h = holders.get((j, sv['id']))
+                    if h is None or not h[1]['blocked'] or h[1]['dest'] not in K:
+                        drop.add(j)
+                        break
+            if not drop:
+                break
+            K -= drop
+        cust = {}
+        for j in K:
+            for sv in s['nodes'][j - 1]['servers']:
+                i, ind = holders[(j, sv['id'])]
+                cust[i] = (j, sv['id'])
+        return K, cust
+
+    def work_after(self, job, drv):
+        """Genuineness on the real engine: simulate_until_deadlock, then the SAME simulation is continued with simulate_until_max_time; no
+        customer of the reported deadlock may ever move.  Inside the scope of Knot.deadlock_is_permanent / Knot2.knot2_is_permanent
+        (fixed servers, no pre-emption, no reneging at the nodes of the knot) the theorems say it cannot happen; outside it does:
+        findings F-18a (reneging) and F-18b (Schedules), both found by the refutations of Knot2.v."""
+        import gen, netbuild, framework, findings
+        cfg = dict(job.get('cfg') or gen.gen(job['region'], job['gseed'], 'quick'))
+        cfg.pop('replay_job', None)
+        n1 = cfg.get('max_frames') or 400
+        cfg['run'] = [['deadlock'], ['time', 10 ** 7]]
+        cfg['max_frames'] = n1 + 250
+        res = {'region': 'after/%s' % cfg.get('region'), 'gseed': cfg.get('gen_seed'), 'hash': 'after/' + framework.cfg_hash(cfg), 'exc': None, 'status': 'ok',
+               'nontrivial': False, 'stats': {}, 'nframes': 0, 'verdict': ('A', [])}
+        st = res['stats']
+        tr = netbuild.run_cfg(cfg, max_frames=cfg['max_frames'])
+        if getattr(tr, 'rejected', False) or tr.init is None:
+            res['status'] = 'cfg_rejected'
+            return res
+        res['nframes'] = len(tr.frames)
+        ends = getattr(tr, 'run_ends', None) or []
+        if not ends or ends[0]['frames'] >= n1:
+            st['after_no_deadlock_reported'] = 1       # the first call never returned (or only because of the frame budget)
+            return res
+        k0 = ends[0]['frames']
+        K, cust = self.knot_of(ends[0]['final'])
+        if not K:
+            st['after_no_structural_knot'] = 1         # soundness of the report itself is clause 92's business (the main runs)
+            return res
+        st['after_deadlocks_continued'] = 1
+        st['after_events_after_the_report'] = len(tr.frames) - k0
+        # the hypotheses (at the report) and the conclusion (later) of Knot2.knot2_is_permanent_in_scope, evaluated by the extracted Coq
+        # booleans on the real snapshots encoded as stage-2 engine states (dispatch_model 44): inside knot_scope the theorem says the knot stays
+        in_scope = None
+        if drv is not None:
+            import engine_k2b, sx
+            kcfg = {x: y for x, y in cfg.items() if x not in ('detector', 'tracker')}
+            if engine_k2b.in_scope(kcfg):
+                ecfg = engine_k2b.enc_cfg(kcfg, tr.init)
+                cyc = [[0] * cfg['n'] for _ in range(cfg['k'])]
+
+                def knot2(f):
+                    nd = f['next_date'] if isinstance(f['next_date'], int) else f['now']
+                    vv = drv.ask('m44', sx.dump([ecfg, engine_k2b.enc_state(f['snap'], kcfg, f['next'], nd, cyc), sorted(K)]))
+                    o = engine_k2b.parse(vv[1]) if vv[0] == 'M' else None
+                    return o if isinstance(o, list) and len(o) == 3 else None
+                o0 = knot2(tr.frames[k0 - 1]) if k0 >= 1 else None
+                if o0 is not None:
+                    in_scope = o0[0] == 1
+                    st['after_knot2_in_scope' if in_scope else 'after_knot2_out_of_scope'] = 1
+                    if in_scope and (o0[1] != 1 or o0[2] != 1):
+                        res['soft'] = {'clause': 901, 'frame': k0, 'cfg': cfg, 'finding': None,
+                                       'detail': {'what': 'the snapshot at the reported deadlock does not satisfy the hypotheses of Knot2.knot2_is_permanent_in_scope for the knot read off it',
+                                                  'K': sorted(K), 'got [knot_scope, knot2_b, noscope_b]': o0}}
+                    elif in_scope:
+                        for k in list(range(k0, len(tr.frames), 25))[:8]:
+                            ok = knot2(tr.frames[k])
+                            if ok is None or ok[1] != 1 or ok[2] != 1:
+                                res['soft'] = {'clause': 901, 'frame': k + 1, 'cfg': cfg, 'finding': None,
+                                               'detail': {'what': 'Knot2.knot2_b / noscope_b fail on a later real snapshot although the theorem promises them', 'K': sorted(K), 'got': ok}}
+                                break
+                            st['after_later_snapshots_still_a_knot_by_knot2_b'] = st.get('after_later_snapshots_still_a_knot_by_knot2_b', 0) + 1
+        moved = None
+        for k in range(k0, len(tr.frames)):
+            s = tr.frames[k]['snap']
+            for i, (j, sid) in cust.items():
+                ind = s['inds'].get(i)
+                if ind is None or not ind['blocked'] or ind['node'] != j or ind['server'] != sid:
+                    moved = (k + 1, i, j, sid, None if ind is None else {x: ind[x] for x in ('node', 'server', 'blocked', 'dest')})
+                    break
+            if moved:
+                break
+        res['nontrivial'] = moved is None and len(tr.frames) - k0 >= 20 and len(K) >= 1
+        if tr.exc is not None and moved is None:
+            st['after_continuation_raised'] = 1
+        if moved:
+            v = ('R', moved[0], 96, [])
+            res['verdict'] = v
+            res['cfg'] = dict(cfg, replay_job={'custom': 'after'})
+            between = [e for f in tr.frames[k0:moved[0]] for e in f['cev']]
+            res['detail'] = {'deadlock_reported_after_event': k0, 'at': tr.frames[k0 - 1]['now'] if k0 >= 1 else 0, 'knot_nodes': sorted(K), 'knot_customers': {str(i): list(x) for i, x in cust.items()},
+                             'moved_at_frame': moved[0], 'now': tr.frames[moved[0] - 1]['now'], 'customer': moved[1], 'was_on': [moved[2], moved[3]], 'is': moved[4],
+                             'events_between': [list(e[:4]) for e in between if e[0] in ('Renege', 'ShiftChange', 'ServersOn', 'Preempt', 'Interrupt')][:12]}
+            tr.after = {'k0': k0, 'K': sorted(K), 'moved': moved}
+            res['finding'] = findings.match(self.id, cfg, tr, v)
+            res.pop('soft', None)
+            if in_scope:
+                res['detail']['inside_knot_scope'] = 'the configuration is inside Knot2.knot_scope for this knot: the theorem knot2_is_permanent_in_scope says this cannot happen in the model'
+        if job.get('want_sample'):
+            res['sample'] = {'kind': 'continuation after a reported deadlock', 'region': cfg.get('region'), 'gen_seed': cfg.get('gen_seed'), 'deadlock_after_event': k0,
+                             'knot_nodes': sorted(K), 'knot_customers': len(cust), 'events_after_the_report': len(tr.frames) - k0, 'moved': list(moved[:4]) if moved else None}
+        return res
 
     def custom_work(self, job, drv):
         """networkx knot search (detect_deadlock) vs the Gallina pruning computation on a random digraph."""
+        if job['custom'] == 'after':
+            return self.work_after(job, drv)
         import random, sx, obs
         rng = random.Random('c18/%d' % job['dseed'])
         nv = rng.randint(1, 7)
